@@ -180,6 +180,23 @@ Section Names.
     - apply in_sur_comps in H. destruct H as [s [-> Hs]]. right. eapply sur_out_in; eassumption.
   Qed.
 
+  Lemma to_sort_outs_strong nm c k :
+    In (nm, c) (to_sort m) -> In k (comp_outs nm c) ->
+    (k = nm /\ ~ In nm (keys (m_sur m))) \/ In k (surrogate_outputs m).
+  Proof.
+    intros H Hk. apply in_to_sort in H. unfold containers in H. rewrite !in_app_iff in H.
+    destruct H as [H|[H|[H|[H|H]]]].
+    - pose proof (in_keys _ _ _ H) as Hn. apply in_ias_of in H. destruct H as [f [a [-> _]]].
+      destruct Hk as [<-|[]]. left. split; [reflexivity|]. intro Hs. names_contra m HWF nm.
+    - pose proof (in_keys _ _ _ H) as Hn. apply in_ias_of in H. destruct H as [f [a [-> _]]].
+      destruct Hk as [<-|[]]. left. split; [reflexivity|]. intro Hs. names_contra m HWF nm.
+    - apply in_der_comps in H. destruct H as [d [-> Hin]]. apply in_keys in Hin.
+      destruct Hk as [<-|[]]. left. split; [reflexivity|]. intro Hs. names_contra m HWF nm.
+    - apply in_rxn_comps in H. destruct H as [d [-> Hin]]. apply in_keys in Hin.
+      destruct Hk as [<-|[]]. left. split; [reflexivity|]. intro Hs. names_contra m HWF nm.
+    - apply in_sur_comps in H. destruct H as [s [-> Hs]]. right. eapply sur_out_in; eassumption.
+  Qed.
+
   Lemma lookup_to_sort nm c : In (nm, c) (to_sort m) -> lookup nm (to_sort m) = Some c.
   Proof. apply lookup_NoDup. apply nodup_keys_to_sort. Qed.
 
@@ -193,6 +210,45 @@ Section Names.
     intros H Hv Hp. apply in_to_sort in H. destruct H as [H|[H|H]]; [| |exact H]; exfalso.
     - apply in_ias_of in H. destruct H as [f [a [_ H]]]. apply Hv. apply (in_map fst) in H. exact H.
     - apply in_ias_of in H. destruct H as [f [a [_ H]]]. apply Hp. apply (in_map fst) in H. exact H.
+  Qed.
+
+  (** flux names: reactions and the surrogates' stoichiometry keys *)
+  Lemma keys_all_rxn_entries : keys (all_rxn_entries m) = keys (m_rxn m) ++ surrogate_reaction_names m.
+  Proof.
+    unfold all_rxn_entries, surrogate_reaction_names. rewrite keys_app. f_equal.
+    - unfold keys. rewrite map_map. reflexivity.
+    - induction (m_sur m) as [|kv l IH]; [reflexivity|]. cbn [flat_map]. rewrite keys_app, IH. reflexivity.
+  Qed.
+
+  Lemma cnt_sur_rxn_le x : cnt x (surrogate_reaction_names m) <= cnt x (surrogate_outputs m).
+  Proof.
+    unfold surrogate_reaction_names, surrogate_outputs.
+    assert (H : forall sn s, In (sn, s) (m_sur m) -> NoDup (keys (s_st s)) /\ incl (keys (s_st s)) (s_out s))
+      by (apply (wf_sur_st m HWF)).
+    induction (m_sur m) as [|[sn s] l IH]; [reflexivity|].
+    cbn [flat_map snd]. rewrite !cnt_app.
+    destruct (H sn s (or_introl eq_refl)) as [Hnd Hi].
+    assert (cnt x (keys (s_st s)) <= cnt x (s_out s)).
+    { apply cnt_NoDup with (x := x) in Hnd.
+      destruct (in_dec N.eq_dec x (keys (s_st s))) as [Hin|Hn].
+      - apply Hi in Hin. apply cnt_In in Hin. lia.
+      - apply cnt_not_In in Hn. lia. }
+    assert (cnt x (flat_map (fun kv => keys (s_st (snd kv))) l) <= cnt x (flat_map (fun kv => s_out (snd kv)) l)).
+    { apply IH. intros sn' s' Hin. apply (H sn' s'). right. exact Hin. }
+    lia.
+  Qed.
+
+  Lemma nodup_keys_all_rxn_entries : NoDup (keys (all_rxn_entries m)).
+  Proof.
+    apply cnt_NoDup. intro x. rewrite keys_all_rxn_entries, cnt_app.
+    pose proof (cnt_sur_rxn_le x). names_lia m HWF x.
+  Qed.
+
+  Lemma sur_rxn_in rn : In rn (surrogate_reaction_names m) ->
+    exists sn s, In (sn, s) (m_sur m) /\ In rn (s_out s).
+  Proof.
+    unfold surrogate_reaction_names. intro H. apply in_flat_map in H. destruct H as [[sn s] [Hin Hk]].
+    exists sn, s. split; [exact Hin|]. cbn [snd] in Hk. apply (proj2 (wf_sur_st m HWF sn s Hin)). exact Hk.
   Qed.
 
   Lemma der_comp_of nm der c :
